@@ -51,19 +51,32 @@ var (
 	dr2Forms = drForms(drNamespaces[:3], len(drExportTo))
 )
 
-func inQuickDR(f drForm, second bool) bool {
-	if !f.Present {
-		return true
-	}
-	for i, e := range drExportTo {
-		if etName(e) == etName(f.ExportTo) {
-			if second {
-				return i < 3
-			}
-			return i < drExportToQuick
+func etIndex(e []string) int {
+	for i, x := range drExportTo {
+		if etName(x) == etName(e) {
+			return i
 		}
 	}
-	return false
+	return -1
+}
+
+func sameNS(a, b drForm) bool { return a.Present && b.Present && a.NS == b.NS }
+
+// inQuickPair: quick covers dr-one exportTo in {unset, ., [ns2], [ns1]} x dr-two in {unset, ., [ns2]}
+// for rules in different namespaces, and {unset, ., [ns2], [ns1], *} x the same five values for two
+// rules in one namespace (there the explicit "*" matters: consolidation compares exportTo sets).
+func inQuickPair(a, b drForm) bool {
+	ia, ib := 0, 0
+	if a.Present {
+		ia = etIndex(a.ExportTo)
+	}
+	if b.Present {
+		ib = etIndex(b.ExportTo)
+	}
+	if sameNS(a, b) {
+		return ia < 5 && ib < 5
+	}
+	return ia < drExportToQuick && ib < 3
 }
 
 // mesh settings of part b
@@ -78,11 +91,11 @@ const meshBQuick = 2
 
 // which instance of shared.example.com the proxies see: (group 1, group 2) exportTo
 var exportPairsB = [][2][]string{
-	{nil, nil},       // both public: each sidecar uses its own namespace's instance
-	{{ns2}, nil},     // ns1's instance hidden from ns1: the ns1 proxies use the ns2 instance
-	{nil, {ns1}},     // ns2's instance hidden from ns2: the ns2 proxy uses the ns1 instance
-	{{"."}, {"."}},   // thorough: both private
-	{{ns2}, {ns1}},   // thorough: swapped
+	{nil, nil},     // both public: each sidecar uses its own namespace's instance
+	{{ns2}, nil},   // ns1's instance hidden from ns1: the ns1 proxies use the ns2 instance
+	{nil, {ns1}},   // ns2's instance hidden from ns2: the ns2 proxy uses the ns1 instance
+	{{"."}, {"."}}, // thorough: both private
+	{{ns2}, {ns1}}, // thorough: swapped
 }
 
 const exportPairsBQuick = 3
@@ -100,7 +113,8 @@ func sidecarFormByName(n string) sidecarForm {
 	panic("no sidecar form " + n)
 }
 
-func worldB(mesh, pair, sc, d1, d2 int) *world {
+// order 1: dr-two is the older of the two rules (only enumerated for two rules in one namespace)
+func worldB(mesh, pair, sc, d1, d2, order int) *world {
 	w := &world{Mesh: meshFormsB[mesh], Services: baseServices(exportPairsB[pair][0], exportPairsB[pair][1])}
 	w.Sidecars = sidecarFormByName(sidecarFormsB[sc]).Build()
 	w.VS = vsForms[1].build() // ns1/unset: shared.example.com is also a VirtualService destination
@@ -108,27 +122,38 @@ func worldB(mesh, pair, sc, d1, d2 int) *world {
 		w.DR = append(w.DR, drT{Name: "dr-one", NS: f.NS, Host: hostShared, ExportTo: f.ExportTo, Marker: 71, TS: baseTS + 300})
 	}
 	if f := dr2Forms[d2]; f.Present {
-		w.DR = append(w.DR, drT{Name: "dr-two", NS: f.NS, Host: hostShared, ExportTo: f.ExportTo, Marker: 72, TS: baseTS + 301})
+		w.DR = append(w.DR, drT{Name: "dr-two", NS: f.NS, Host: hostShared, ExportTo: f.ExportTo, Marker: 72, TS: baseTS + 301 - int64(2*order)})
 	}
 	return w
 }
 
-func descB(mesh, pair, sc, d1, d2 int) string {
-	return fmt.Sprintf("mesh{%s} shared/ns1.exportTo=%s shared/ns2.exportTo=%s sidecar=%s virtualservice=ns1/unset dr-one(71)=%s dr-two(72)=%s", meshFormsB[mesh].Name,
-		etName(exportPairsB[pair][0]), etName(exportPairsB[pair][1]), sidecarFormsB[sc], dr1Forms[d1].name(), dr2Forms[d2].name())
+func descB(mesh, pair, sc, d1, d2, order int) string {
+	age := ""
+	if sameNS(dr1Forms[d1], dr2Forms[d2]) {
+		age = " (dr-one older)"
+		if order == 1 {
+			age = " (dr-two older)"
+		}
+	}
+	return age2(fmt.Sprintf("mesh{%s} shared/ns1.exportTo=%s shared/ns2.exportTo=%s sidecar=%s virtualservice=ns1/unset dr-one(71)=%s dr-two(72)=%s", meshFormsB[mesh].Name,
+		etName(exportPairsB[pair][0]), etName(exportPairsB[pair][1]), sidecarFormsB[sc], dr1Forms[d1].name(), dr2Forms[d2].name()), age)
 }
 
-func validPairB(d1, d2 int) bool {
-	a, b := dr1Forms[d1], dr2Forms[d2]
-	// two rules for one host in one namespace are merged by creation order; the text does not fix
-	// the result, so such worlds are not generated
-	return !(a.Present && b.Present && a.NS == b.NS)
+func age2(s, age string) string { return s + age }
+
+// ordersB: two rules for one host in one namespace are consolidated by creation order, so both age
+// orders are enumerated; for rules in different namespaces the age plays no role.
+func ordersB(d1, d2 int) []int {
+	if sameNS(dr1Forms[d1], dr2Forms[d2]) {
+		return []int{0, 1}
+	}
+	return []int{0}
 }
 
 func TestC07b(t *testing.T) {
 	env := engine.GetEnv()
 	res := engine.NewResult("C07", "b-rules")
-	res.Rule = "full product mesh default x which instance of shared.example.com each proxy sees x Sidecar form x DestinationRule dr-one (namespace x exportTo, or absent) x dr-two (other namespace x exportTo, or absent), both for host shared.example.com with distinct markers (maxConnections 71/72, subset m71/m72); fresh environment per world; per proxy the marker found on every delivered cluster (and subset clusters) against R5's rule selection, and the bytes against the sibling world without each rule that is not exported to the proxy. non-trivial = at least one rule is exported to the proxy and at least one is not, or two exported rules compete (distinct by proxy and the per-rule exported/lookup position vector)"
+	res.Rule = "full product mesh default x which instance of shared.example.com each proxy sees x Sidecar form x DestinationRule dr-one (namespace x exportTo, or absent) x dr-two (namespace x exportTo, or absent; for two rules in one namespace both age orders), both for host shared.example.com with distinct markers (maxConnections 71/72, subset m71/m72); fresh environment per world; per proxy the marker found on every delivered cluster (and subset clusters) against R5's rule selection, and the bytes against the sibling world without each rule that is not exported to the proxy. non-trivial = at least one rule is exported to the proxy and at least one is not, or two exported rules compete (distinct by proxy and the per-rule exported/lookup position vector)"
 	defer res.Write(t, env)
 
 	if env.Replay != "" {
@@ -150,7 +175,7 @@ func TestC07b(t *testing.T) {
 		// a family = all (dr-one, dr-two) pairs of one (mesh, pair, sidecar); dealt to shards by dr-one
 		// so that every shard has work; siblings needed for the byte comparison are recomputed per shard
 		for d1 := range dr1Forms {
-			if !env.Thorough() && !inQuickDR(dr1Forms[d1], false) {
+			if !env.Thorough() && !inQuickPair(dr1Forms[d1], drForm{Present: true, NS: dr1Forms[d1].NS}) {
 				continue
 			}
 			if !env.Mine(famOrd*int64(len(dr1Forms)) + int64(d1)) {
@@ -164,74 +189,81 @@ func TestC07b(t *testing.T) {
 			withoutOne := map[int][]*proxyObs{}
 			var onlyOne []*proxyObs
 			for d2 := range dr2Forms {
-				if !env.Thorough() && !inQuickDR(dr2Forms[d2], true) {
+				if !env.Thorough() && !inQuickPair(dr1Forms[d1], dr2Forms[d2]) {
 					continue
 				}
-				if !validPairB(d1, d2) {
-					continue
-				}
-				w := worldB(idx[0], idx[1], idx[2], d1, d2)
-				rp := replayT{Part: "b", Mesh: idx[0], E1: idx[1], Sidecar: idx[2], DR1: d1, DR2: d2, Desc: descB(idx[0], idx[1], idx[2], d1, d2)}
-				obs, err := observeWorld(w, proxies)
-				if err != nil {
-					t.Fatalf("%s: %v", rp.Desc, err)
-				}
-				res.Evaluations++
-				worlds++
-				if d2 == 0 {
-					onlyOne = obs
-				}
-				evaluate(t, res, w, obs, rp, nil, "")
-				if res.Infra != "" {
-					return false
-				}
-				nontrivialB(res, w)
-				// byte comparison with the siblings
-				for i, p := range proxies {
-					r := rp
-					r.Proxy, r.World = p.Name, w
-					for k := range w.DR {
-						d := &w.DR[k]
-						if w.drExported(d, p.NS) {
-							continue
-						}
-						var sib []*proxyObs
-						if d.Name == "dr-one" {
-							if withoutOne[d2] == nil {
-								so, err := observeWorld(worldB(idx[0], idx[1], idx[2], 0, d2), proxies)
-								if err != nil {
-									t.Fatal(err)
-								}
-								withoutOne[d2] = so
-								res.Count("sibling_worlds", 1)
-							}
-							sib = withoutOne[d2]
-						} else {
-							sib = onlyOne
-						}
-						if sib[i].Digest != obs[i].Digest {
-							res.Violate(fmt.Sprintf("rule-leak:destinationrule-bytes|proxy=%s|dr-ns=%s", p.Type, drRel(p, d.NS)),
-								fmt.Sprintf("%s :: %s (namespace %s): DestinationRule %s/%s (exportTo %s) is not exported to %s, yet the generated bytes differ from the same world without it",
-									rp.Desc, p.Name, p.NS, d.NS, d.Name, etName(d.ExportTo), p.NS), r)
-						}
-						res.Count("byte_comparisons", 1)
-					}
-				}
-				if worlds%211 == 1 {
-					again, err := observeWorld(w, proxies)
+				for _, order := range ordersB(d1, d2) {
+					w := worldB(idx[0], idx[1], idx[2], d1, d2, order)
+					rp := replayT{Part: "b", Mesh: idx[0], E1: idx[1], Sidecar: idx[2], DR1: d1, DR2: d2, Flag: order, Desc: descB(idx[0], idx[1], idx[2], d1, d2, order)}
+					obs, err := observeWorld(w, proxies)
 					if err != nil {
-						t.Fatal(err)
+						t.Fatalf("%s: %v", rp.Desc, err)
 					}
-					for i := range obs {
-						if again[i].Digest != obs[i].Digest {
-							res.Infra = fmt.Sprintf("nondeterministic output for %s / %s", rp.Desc, proxies[i].Name)
-							return false
+					res.Evaluations++
+					worlds++
+					if d2 == 0 {
+						onlyOne = obs
+					}
+					evaluate(t, res, w, obs, rp, nil, "")
+					if res.Infra != "" {
+						return false
+					}
+					nontrivialB(res, w)
+					// byte comparison with the siblings
+					for i, p := range proxies {
+						r := rp
+						r.Proxy, r.World = p.Name, w
+						for k := range w.DR {
+							d := &w.DR[k]
+							if w.drExported(d, p.NS) {
+								continue
+							}
+							var sib []*proxyObs
+							if d.Name == "dr-one" {
+								if withoutOne[d2] == nil {
+									so, err := observeWorld(worldB(idx[0], idx[1], idx[2], 0, d2, 0), proxies)
+									if err != nil {
+										t.Fatal(err)
+									}
+									withoutOne[d2] = so
+									res.Count("sibling_worlds", 1)
+								}
+								sib = withoutOne[d2]
+							} else {
+								if onlyOne == nil {
+									so, err := observeWorld(worldB(idx[0], idx[1], idx[2], d1, 0, 0), proxies)
+									if err != nil {
+										t.Fatal(err)
+									}
+									onlyOne = so
+									res.Count("sibling_worlds", 1)
+								}
+								sib = onlyOne
+							}
+							if sib[i].Digest != obs[i].Digest {
+								res.Violate(fmt.Sprintf("rule-leak:destinationrule-bytes|proxy=%s|dr-ns=%s", p.Type, drRel(p, d.NS)),
+									fmt.Sprintf("%s :: %s (namespace %s): DestinationRule %s/%s (exportTo %s) is not exported to %s, yet the generated bytes differ from the same world without it",
+										rp.Desc, p.Name, p.NS, d.NS, d.Name, etName(d.ExportTo), p.NS), r)
+							}
+							res.Count("byte_comparisons", 1)
 						}
 					}
-					res.Count("determinism_rechecks", 1)
-				}
-				if worlds%397 == 3 {
-					res.Sample(map[string]any{"case": rp.Desc, "proxy": proxies[1].Name, "clusters": obs[1].Clusters})
+					if worlds%211 == 1 {
+						again, err := observeWorld(w, proxies)
+						if err != nil {
+							t.Fatal(err)
+						}
+						for i := range obs {
+							if again[i].Digest != obs[i].Digest {
+								res.Infra = fmt.Sprintf("nondeterministic output for %s / %s", rp.Desc, proxies[i].Name)
+								return false
+							}
+						}
+						res.Count("determinism_rechecks", 1)
+					}
+					if worlds%397 == 3 {
+						res.Sample(map[string]any{"case": rp.Desc, "proxy": proxies[1].Name, "clusters": obs[1].Clusters})
+					}
 				}
 			}
 		}
@@ -267,8 +299,8 @@ func nontrivialB(res *engine.Result, w *world) {
 }
 
 func replayB(t *testing.T, res *engine.Result, rp replayT) {
-	w := worldB(rp.Mesh, rp.E1, rp.Sidecar, rp.DR1, rp.DR2)
-	rp.Desc = descB(rp.Mesh, rp.E1, rp.Sidecar, rp.DR1, rp.DR2)
+	w := worldB(rp.Mesh, rp.E1, rp.Sidecar, rp.DR1, rp.DR2, rp.Flag)
+	rp.Desc = descB(rp.Mesh, rp.E1, rp.Sidecar, rp.DR1, rp.DR2, rp.Flag)
 	obs, err := observeWorld(w, proxies)
 	if err != nil {
 		t.Fatal(err)
@@ -287,7 +319,7 @@ func replayB(t *testing.T, res *engine.Result, rp replayT) {
 			} else {
 				d2 = 0
 			}
-			sib, err := observeWorld(worldB(rp.Mesh, rp.E1, rp.Sidecar, d1, d2), proxies)
+			sib, err := observeWorld(worldB(rp.Mesh, rp.E1, rp.Sidecar, d1, d2, 0), proxies)
 			if err != nil {
 				t.Fatal(err)
 			}
